@@ -962,6 +962,10 @@ func main() {
 		runFault(os.Args[2])
 	case "codec":
 		runCodec(os.Args[2])
+	case "conc":
+		runConc(os.Args[2])
+	case "stress":
+		runStress(os.Args[2:])
 	default:
 		fmt.Fprintln(os.Stderr, "unknown mode")
 		os.Exit(2)
